@@ -86,8 +86,12 @@ def restore_real_locks():
 
 
 class Scheduler:
-    def __init__(self, nthreads, schedule, trace_prefix, opcode_files=(), step_timeout=20.0, max_steps=400000):
+    def __init__(self, nthreads, schedule, trace_prefix, opcode_files=(), step_timeout=20.0, max_steps=400000, defer=None):
         self.n = nthreads
+        # ``defer()`` true at a yield point = the running thread holds an uncooperative lock every other thread needs (C16: the
+        # interpreter-wide import lock, held while meta-path finders run), so a real preemption there could not let another
+        # managed thread advance; the pending switch is postponed to the next yield point where it is false
+        self.defer = defer
         self.schedule = list(schedule)
         self.prefix = trace_prefix
         self.opcode_files = tuple(opcode_files)
@@ -98,7 +102,7 @@ class Scheduler:
         self.current = 0
         self.quota = self.schedule.pop(0) if self.schedule else None
         self.switches = 0
-        self.concurrent_switches = 0      # switches away from a thread inside beartype to a thread that is inside too
+        self.concurrent_switches = 0      # suspensions of a thread inside the traced code during which another thread ran traced code
         self.spins = 0
         self.deadlock = False
         self.timeout = False
@@ -119,8 +123,7 @@ class Scheduler:
 
     def _hand_over(self, tid, target, wait=True):
         self.switches += 1
-        if self.started[target] and not self.done[target] and self.inside[target] > 0 and self.inside[tid] > 0:
-            self.concurrent_switches += 1
+        others = sum(self.inside) - self.inside[tid]
         self.current = target
         self.events[tid].clear()
         self.events[target].set()
@@ -128,6 +131,10 @@ class Scheduler:
             if not self.events[tid].wait(self.step_timeout):
                 self.timeout = True
                 raise SchedTimeout('thread %d was never rescheduled' % tid)
+            # back again: the switch was a concurrent one iff this thread was suspended inside the traced code and some
+            # other thread executed traced code in the meantime
+            if self.inside[tid] > 0 and sum(self.inside) - self.inside[tid] > others:
+                self.concurrent_switches += 1
 
     def yield_point(self):
         tid = getattr(_LOCAL, 'tid', None)
@@ -142,6 +149,8 @@ class Scheduler:
             return
         if self.quota > 0:
             self.quota -= 1
+            return
+        if self.defer is not None and self.defer():
             return
         target = self._next_runnable(tid)
         self.quota = self.schedule.pop(0) if self.schedule else None
